@@ -266,11 +266,30 @@ def run(ctx):
         if not (isinstance(out, tuple) and len(out) == 2):
             ctx.fail("C13:tau:%s.ubi_to_u_and_eps:calls" % short, "ubi_to_u_and_eps does not return the pair (U, eps)", where)
             continue
-        if len(bcalls_) != 1:
-            # the strain is computed some other way than by one call of b_to_epsilon: this rule reads the matrix handed to that call
-            raise AnalysisError("%s.ubi_to_u_and_eps: the strain is not obtained from one call of b_to_epsilon (calls: %s)" % (short, names))
         ubim_ = materialise(ubi)
         dcell = "a_to_cell(%s)" % vkey(Arr([[ubim_.data[j][i] for j in range(3)] for i in range(3)]))
+        if len(bcalls_) != 1:
+            # the strain is computed some other way than by one call of b_to_epsilon: decided on the VALUE returned -- it must be
+            # sym(B0 . inv(B)) - I for the strained B of the module's UBI convention, B = tau*inv(UBI.U), B0 = form_b_mat(unit_cell)
+            Bd_ = Opaque("form_b_mat(%s)" % dcell, (3, 3))
+            Uw_ = N.ref("transpose(dot(B, X))/tau", {"B": Bd_, "X": ubi, "tau": tau})
+            # inv(B) = UBI.U/tau, written out (no inverse of an inverse to recognise)
+            Tw_ = N.ref("dot(B0, dot(X, U))/tau", {"B0": Arr([[x for x in r] for r in B0]), "X": ubi, "U": Uw_, "tau": tau})
+            Tm_ = mat(Tw_)
+            want6 = [(Tm_[i][j] + Tm_[j][i]) / 2 - ident[i][j] for (i, j) in PAIRS]
+            try:
+                got6 = seq6(out[1])
+            except AnalysisError:
+                raise AnalysisError("%s.ubi_to_u_and_eps: the strain is not obtained from b_to_epsilon and is not an explicit list of six "
+                                    "components (calls: %s)" % (short, names))
+            oke = len(got6) == 6 and all(N.rat_equal(x_, y_) for x_, y_ in zip(got6, want6))
+            ctx.check(oke, "C13:tau:%s.ubi_to_u_and_eps:eps" % short,
+                      "the strain returned is not sym(B0.inv(B)) - I for B = tau*inv(UBI.U) (the strained B of the module's UBI "
+                      "convention) and B0 = form_b_mat(unit_cell)", where)
+            fa_ = [scalar(x) for x in (out[0] if isinstance(out[0], Arr) else materialise(out[0])).flat()]
+            ctx.check(all(x.equals(y) for x, y in zip(fa_, [scalar(x) for x in Uw_.flat()])), "C13:tau:%s.ubi_to_u_and_eps:U" % short,
+                      "U is not transpose(dot(form_b_mat(ubi_to_cell(ubi)), ubi))/tau", where)
+            continue
         okU = True          # (the opaque values of ubi_to_cell / form_b_mat carry their arguments: comparing U covers those calls)
         Bd = Opaque("form_b_mat(%s)" % dcell, (3, 3))
         Uwant = N.ref("transpose(dot(B, X))/tau", {"B": Bd, "X": ubi, "tau": tau})
